@@ -325,14 +325,18 @@ def motif_wide(rng, kind):
             "faults": {"items": {}, "flushes": {}, "ctx": {}}, "prio": gen_prio(rng, 1)}
 
 
-def motif_unnested_ctx(rng):
+def motif_unnested_ctx(rng, ctxs=None):
     """Two contexts of one task left in the order they were entered (enter A, enter B, leave A,
     suspensions, leave B), next to sibling tasks."""
     kinds = rng.randint(1, 2)
 
     def items(m):
         return [["y", ["item", rng.randint(0, kinds - 1), rng.randint(0, 5)]] for _ in range(m)]
-    victim = [["with2", ["ctx"], ["ctx"], items(rng.randint(0, 1)), items(rng.randint(1, 2))]] + items(rng.randint(0, 1))
+    # (two save-and-restore contexts that are not nested must not share their target)
+    ca, cb = (ctxs[0], ctxs[1]) if ctxs else (["ctx"], ["ctx"])
+    if ctxs and rng.random() < 0.5:
+        ca, cb = cb, ca
+    victim = [["with2", ca, cb, items(rng.randint(0, 1)), items(rng.randint(1, 2))]] + items(rng.randint(0, 1))
     if rng.random() < 0.3:
         victim = [["with", ["ctx"], victim]]
     sib = items(rng.randint(1, 3))
